@@ -221,6 +221,63 @@ func GenDraw(rng *rand.Rand, thorough bool) []*Scn {
 		}
 		out = append(out, sc)
 	}
+	out = append(out, genEndless(rng, thorough)...)
+	return out
+}
+
+// genEndless: lists whose builder has a widget for EVERY index (as in the
+// library's own _examples/vxfw/list), so that only the list itself ends the
+// drawing of rows. Bounded-exhaustive over the row classes below x maximum
+// width {0,1,2,3,10} x maximum height {0,1,3,10} x cursor gutter x gap {0,1}:
+// rows that have no height at the width left to them (no room beside the
+// gutter, width 0, empty rows, a field at width 0) are what the demand
+// "Draw returns" is about. Half of the scenarios go on with a second draw
+// after a selection or a scroll at another width.
+func genEndless(rng *rand.Rand, thorough bool) []*Scn {
+	rows := [][]*WD{
+		{{K: "text", S: "hello world", Wrap: true}},
+		{{K: "text", S: "row"}},
+		{{K: "text", S: ""}},
+		{{K: "text", S: "", Wrap: true}},
+		{{K: "rich", S: ""}},
+		{{K: "rich", S: "rich row", Wrap: true}},
+		{{K: "field", S: "in"}},
+		{{K: "field", S: ""}},
+		{{K: "text", S: ""}, {K: "text", S: "a\nb"}},
+		{{K: "text", S: "世界", Wrap: true}, {K: "rich", S: ""}, {K: "field", S: ""}},
+	}
+	widths, heights := []int{0, 1, 2, 3, 10}, []int{0, 1, 3, 10}
+	var out []*Scn
+	for _, r := range rows {
+		for _, mw := range widths {
+			for _, mh := range heights {
+				for _, cur := range []bool{false, true} {
+					for gap := 0; gap <= 1; gap++ {
+						if gap == 1 && !thorough && rng.Intn(2) == 0 {
+							continue // a gap always adds height: a sample in the quick tier
+						}
+						w := &WD{K: "list", Items: r, Cursor: cur, Gap: gap, Every: true}
+						sc := &Scn{Kind: "draw", Widget: w, Draws: []DrawStep{{MaxW: mw, MaxH: mh}}}
+						if rng.Intn(2) == 0 {
+							st := DrawStep{MaxW: widths[rng.Intn(len(widths))], MaxH: heights[rng.Intn(len(heights))]}
+							if rng.Intn(2) == 0 {
+								st.Sel = 1 + rng.Intn(30)
+							} else {
+								st.Scroll = rng.Intn(13) - 6
+							}
+							sc.Draws = append(sc.Draws, st, DrawStep{MaxW: mw, MaxH: mh})
+						}
+						out = append(out, sc)
+					}
+				}
+			}
+		}
+	}
+	// nested: a centring parent hands the list its own maximum
+	for _, mw := range []int{0, 2} {
+		w := &WD{K: "center", C: &WD{K: "list", Items: rows[0], Cursor: true, Every: true}}
+		out = append(out, drawScn(w, mw, 10, 0, 0))
+	}
 	return out
 }
 
